@@ -81,35 +81,6 @@ def make_overlay(pid, part, bdir):
                 continue
             rep[os.path.join(REPO, "x", "verif", name, os.path.basename(f))] = f
     pkgdir = os.path.join(REPO, part["pkg"])
-    # instrumented copies of the package's sources (regenerated from the current tree)
-    if part.get("instrument"):
-        idir = os.path.join(bdir, "instr")
-        shutil.rmtree(idir, ignore_errors=True)
-        os.makedirs(idir)
-        for ip in [part["pkg"]] + part.get("instrument_also", []):
-            sub = os.path.join(idir, ip.replace("/", "_"))
-            os.makedirs(sub)
-            r = subprocess.run([build_instr(), "-pkg", "./" + ip, "-repo", REPO, "-out", sub, "-tags", "verif"],
-                               cwd=REPO, env=go_run_env(), capture_output=True, text=True)
-            if r.returncode != 0:
-                log("instrumenter failed for %s:\n%s" % (ip, r.stderr))
-                sys.exit(2)
-            d = json.loads(r.stdout)
-            rep.update(d["Replace"])
-            # fast goroutine-id accessor (assembly needs a real package directory)
-            gdir = os.path.join(VERIF, "engine", "instr", "getg")
-            pkgname = "main"
-            for gf in sorted(d["Replace"].values()):
-                for line in open(gf):
-                    if line.startswith("package "):
-                        pkgname = line.split()[1]
-                        break
-                break
-            gen = os.path.join(sub, "zz_verif_getg.go")
-            open(gen, "w").write(open(os.path.join(gdir, "zz_verif_getg.go.tmpl")).read().replace("PKGNAME", pkgname))
-            rep[os.path.join(REPO, ip, "zz_verif_getg.go")] = gen
-            rep[os.path.join(REPO, ip, "zz_verif_getg_amd64.s")] = os.path.join(gdir, "zz_verif_getg_amd64.s")
-            part.setdefault("_instr_stats", {})[ip] = {"stats": d.get("stats"), "points": d.get("pcs")}
     # stubs over the package's own tests (only the harness is compiled)
     stubdir = os.path.join(bdir, "stubs")
     shutil.rmtree(stubdir, ignore_errors=True)
@@ -136,6 +107,42 @@ def make_overlay(pid, part, bdir):
     for extra in part.get("extra_harness", []):
         for f in sorted(glob.glob(os.path.join(VERIF, extra, "*.go"))):
             rep[os.path.join(pkgdir, os.path.basename(f))] = f
+    ov1 = os.path.join(bdir, "overlay.phase1.json")
+    json.dump({"Replace": rep}, open(ov1, "w"), indent=1)
+    part["_phase1_overlay"] = ov1
+    # instrumented copies of the package's sources (regenerated from the current tree)
+    if part.get("instrument"):
+        idir = os.path.join(bdir, "instr")
+        shutil.rmtree(idir, ignore_errors=True)
+        os.makedirs(idir)
+        for ip in [part["pkg"]] + part.get("instrument_also", []):
+            sub = os.path.join(idir, ip.replace("/", "_"))
+            os.makedirs(sub)
+            icmd = [build_instr(), "-pkg", "./" + ip, "-repo", REPO, "-out", sub, "-tags", "verif"]
+            if part.get("instrument_tests") and ip == part["pkg"]:
+                # the harness (internal test files, injected by the phase-1 overlay) is instrumented too, so that its
+                # fixtures (mutexes, conds, channels, goroutines) are under the controlled scheduler as well
+                icmd += ["-test", "-overlay", part["_phase1_overlay"]]
+            r = subprocess.run(icmd, cwd=REPO, env=go_run_env(), capture_output=True, text=True)
+            if r.returncode != 0:
+                log("instrumenter failed for %s:\n%s" % (ip, r.stderr))
+                sys.exit(2)
+            d = json.loads(r.stdout)
+            rep.update(d["Replace"])
+            # fast goroutine-id accessor (assembly needs a real package directory)
+            gdir = os.path.join(VERIF, "engine", "instr", "getg")
+            pkgname = "main"
+            for gf in sorted(d["Replace"].values()):
+                for line in open(gf):
+                    if line.startswith("package "):
+                        pkgname = line.split()[1]
+                        break
+                break
+            gen = os.path.join(sub, "zz_verif_getg.go")
+            open(gen, "w").write(open(os.path.join(gdir, "zz_verif_getg.go.tmpl")).read().replace("PKGNAME", pkgname))
+            rep[os.path.join(REPO, ip, "zz_verif_getg.go")] = gen
+            rep[os.path.join(REPO, ip, "zz_verif_getg_amd64.s")] = os.path.join(gdir, "zz_verif_getg_amd64.s")
+            part.setdefault("_instr_stats", {})[ip] = {"stats": d.get("stats"), "points": d.get("pcs")}
     ov = os.path.join(bdir, "overlay.json")
     json.dump({"Replace": rep}, open(ov, "w"), indent=1)
     return ov
